@@ -48,6 +48,11 @@ def draw_pop(draw, n_ids, kinds=ELEM_KINDS, max_parts=4, max_dim=3, p_cov=0.3, p
 
 def _draw_elem_theta(draw, spec, n_ids, positive=False):
     k, d = spec['kind'], spec['n_dim']
+    if positive and k == 'trunc' and gen.chance(draw, 0.15):
+        # far upper tail: location well below the truncation point (individual values are |mu + sigma*z| > 0)
+        sig = draw(gen.vec(gen.logu(0.3, 3.0), d))
+        z = draw(gen.vec(gen.real(-8, -4), d))
+        return [gen.r6(a * b) for a, b in zip(z, sig)] + sig
     if positive and k in ('gauss', 'trunc'):
         # individual values mu + sigma*z with |z| <= 3 stay positive
         mu = draw(gen.vec(gen.logu(0.5, 5.0), d))
